@@ -54,9 +54,10 @@ Definition count_over_limit (k : kind) (payload : bytes) : bool :=
   end.
 
 (* kinds whose accepted payload bytes are reproduced exactly by re-encoding the decoded message *)
-Definition canonical_kind (k : kind) : bool :=
+Definition canonical_kind (pver : N) (k : kind) : bool :=
   match k with
-  | KVerAck | KGetAddr | KAddr | KGetBlocks | KGetHeaders | KHeaders | KInv | KGetData | KNotFound
+  | KAddr => MultipleAddressVersion <=? pver    (* below it BsvEncode refuses more than one address *)
+  | KVerAck | KGetAddr | KGetBlocks | KGetHeaders | KHeaders | KInv | KGetData | KNotFound
   | KPing | KPong | KReject | KSendHeaders | KFeeFilter | KMemPool => true
   | _ => false
   end.
